@@ -3,6 +3,9 @@
 //! Usage: msimc <ID> <quick|thorough> | msimc replay <file> | msimc selftest
 
 mod c13;
+mod c14;
+mod c17;
+mod c18;
 mod c19;
 mod medium;
 mod report;
@@ -26,6 +29,9 @@ fn main() {
             let r = &doc["replay"];
             match doc["property"].as_str().unwrap_or("") {
                 "C13" => c13::replay(r),
+                "C14" => c14::replay(r),
+                "C17" => c17::replay(r),
+                "C18" => c18::replay(r),
                 "C19" => c19::replay(r),
                 other => println!("no replayer for {}", other),
             }
@@ -41,6 +47,9 @@ fn main() {
             };
             match id {
                 "C13" => c13::run(tier),
+                "C14" => c14::run(tier),
+                "C17" => c17::run(tier),
+                "C18" => c18::run(tier),
                 "C19" => c19::run(tier),
                 _ => {
                     eprintln!("unknown check {}", id);
